@@ -368,6 +368,50 @@ def array_obligations(core, ks, skip_scenario="c05_array_vs_single"):
     return out
 
 
+def _read_task_followups(core):
+    """read_task: every follow-up message handle_backend_messages returns (SubscriptionClosed for a lagging / abandoned subscription, the unsubscribe of a subscribe call
+    nobody waits for any more) is handed to the send task with the awaiting `send` - its future kept among the pending ones - never with try_send: a full queue delays it, it
+    cannot drop it"""
+    b = R.find_body(core, r"^fn read_task::\{closure#0\}\(_1: Pin<&mut \{async fn body of read_task<")
+    okb = z3.Bool("handle_backend.ok")
+    K = 2
+
+    def m_hbm(ex, st, callee, args, dty, site):
+        lst = LM.new_list(ex, [Opaque(z3.Const(f"followup{j}", OBJ)) for j in range(K)], name="messages")
+        return Fork([(okb, lambda ex_, st_, tr: ex_.mk_variant("Result", 0, "Ok", lst)),
+                     (z3.Not(okb), lambda ex_, st_, tr: ex_.mk_variant("Result", 1, "Err", Opaque(z3.Const("read_error", OBJ))))])
+    from .. import seqmodels as SQ
+    ex, ctx, paths = P.explore(core, b, extra_models=[(r"^handle_backend_messages::<", m_hbm)] + LM.LIST_MODELS + list(SQ.TRY_MODELS) + list(M.TRACING_MODELS), max_paths=8000, max_visits=4)
+    bad = [(p.kind, p.detail) for p in paths if p.kind in ("unsupported", "limit")]
+    viol, reach = [], []
+    for p in paths:
+        evs = [e for e in p.events if e.kind == "call"]
+        hb = [i for i, e in enumerate(evs) if e.callee.startswith("handle_backend_messages::<")]
+        if not hb:
+            continue
+        seg = evs[hb[0] + 1:]
+        if any(re.search(r"mpsc::Sender::<FrontToBack>::try_send$", e.callee) for e in seg):
+            viol.append(p.cond())
+            continue
+        nexts = [e for e in seg if re.search(r"IntoIter<FrontToBack> as Iterator>::next$", e.callee)]
+        taken = [e for e in seg if re.search(r"^handle_backend_messages::<", e.callee)]
+        if len(nexts) < K + 1 or ex.feasible(list(p.pc) + [z3.Not(okb)]):
+            continue                              # the list was not walked to its end on this path (or the read failed)
+        pc = p.cond()
+        reach.append(pc)
+        sends = [e for e in seg if re.search(r"mpsc::Sender::<FrontToBack>::send$", e.callee)]
+        pushes = [e for e in seg if re.search(r"^MaybePendingFutures::<.*>::push$", e.callee)]
+        got = [re.search(r"followup(\d+)", str(to_term(e.args[1]))) for e in sends[:K]]
+        ok = len(sends) >= K and [int(m.group(1)) if m else None for m in got] == list(range(K)) and len(pushes) >= K
+        if ok:
+            for sd, pu in zip(sends[:K], pushes[:K]):
+                if str(to_term(sd.ret))[:60] not in str(to_term(pu.args[1])):
+                    ok = False
+        if not ok:
+            viol.append(pc)
+    return b, viol, reach, bad
+
+
 def obligations(tier, seed):
     core = R.bodies("core")
     out = []
@@ -428,6 +472,16 @@ def obligations(tier, seed):
                             desc="close_reason(): a subscription that fell behind its buffer is reported as Lagged - before and after the stream was polled to its end; ConnectionClosed only "
                                  "when it is closed and did not lag; None while open", bounds="has_lagged x is_closed", keydetail="close-reason",
                             replay=dict(scenario="c05_close_reason", vars={}, fixed={}, region=z3.BoolVal(True))))
+    b, viol, reach, bad = _read_task_followups(core)
+    reach_l = R.live_reach(viol, reach, bad)
+    if bad or not reach_l[0]:
+        out.append(R.Result(engine="mirsym", name="order:read_task:follow-ups", kind="order", status="unsupported" if bad else "vacuous", detail=str(bad[:1])[:300], bodies=[b.name]))
+    else:
+        out.append(R.decide("order:read_task:follow-ups-await-queue-capacity", "order", z3.Or(*viol) if viol else z3.BoolVal(False), [z3.Or(*reach_l[0])], bodies=[b.name],
+                            desc="every follow-up message the receive path produces (close a lagging or abandoned subscription, unsubscribe a subscription nobody waits for) is handed to the send "
+                                 "task with the awaiting send, each once and in order, its future kept until it completes - never with try_send",
+                            bounds="2 follow-up messages; every resume point of read_task; every outcome of the select", keydetail="read-task-followups",
+                            replay=dict(scenario="c05_drop_full_queue", vars={}, fixed={"kind": "lagging"}, region=z3.BoolVal(True))))
     b, viol, reach, bad = _explicit_unsubscribe(core)
     reach_l = R.live_reach(viol, reach, bad)
     if bad or not reach_l[0]:
